@@ -91,7 +91,10 @@ Definition monitor (c : case) : list N :=
       if negb should then []
       else if forallb (reportable c) (c_failed c) then [2%N]        (* a report was due and could be built *)
            else if existsb (fun r => match mget (d_rcpt_errs m) r with Some e => Z.eqb (r_e0 e) 0 | None => false end) (c_failed c)
-                then [105%N] else [106%N]
+                then [105%N]
+                else []   (* a recorded original address that the message's address type cannot carry
+                             (non-ASCII in a non-SMTPUTF8 message) is not an address that sender used:
+                             the statement says nothing about it *)
   | OReport r ofrom wf hdrok =>
       (if should then [] else [3%N]) ++
       match c_bfail c with
